@@ -52,6 +52,8 @@ DEFAULT_KNOBS = Knobs(
     p_scalar_code_default=0.06,  # an int/float/bool (or Optional thereof) whose default is a computed expression
     p_multiline_doc=0.0,  # prose that itself contains a line break (as descriptions parsed from multi-line entries do)
     p_float_typed_int_default=0.0,  # `lr: float = 1`: an integer literal as the default of a float-typed entry
+    p_stale_doc_default=0.0,  # prose that states a default states ANOTHER value than the description's own default (stale words)
+    p_return_none_default=0.0,  # the returned default expression is None (Optional[...] return)
     p_boundary_doc=0.1,  # prose of an exact length around the wrap width, so that the break falls inside / next to the default sentence
     p_multi_line_summary=0.3,
     p_long_summary=0.15,
@@ -195,8 +197,11 @@ class IRGen:
 
     def v_float(self):
         r = self.r
-        kind = r.choice(["pos", "neg", "exp", "integral", "small"])
+        kind = r.choice(["pos", "neg", "exp", "integral", "small", "unit"])
         n = self._u()
+        if kind == "unit":
+            # 0.0 and 1.0: equal in value to False / True and to 0 / 1, different in type
+            return (0.0, "float_zero") if r.random() < 0.5 else (1.0, "float_one")
         if kind == "pos":
             return n + 0.25, "float_pos"
         if kind == "neg":
@@ -339,6 +344,8 @@ class IRGen:
                     shown = "None" if default == NoneStr else default
                     if isinstance(shown, str) and shown != "None" and typ and "str" in typ:
                         shown = '"{}"'.format(shown)
+                    if k.p_stale_doc_default and type(shown) in (int, float) and self.chance(k.p_stale_doc_default):
+                        shown = shown + 1
                     p["doc"] = "{}{} Defaults to {}".format(p["doc"], "" if p["doc"].endswith((".", ",")) else ".", shown)
                     states_default = True
             params[name] = p
@@ -421,7 +428,10 @@ class IRGen:
                     "code_arith_over_params": None,
                 }[kind]
                 rdc = "code_arith" if kind == "code_arith_over_params" else kind
-                if k.p_return_literal_source and self.chance(k.p_return_literal_source):
+                if k.p_return_none_default and self.chance(k.p_return_none_default):
+                    rt["default"], rdc = "None", "none_source"
+                    rt["typ"], rtc = "Optional[{}]".format(r.choice(("int", "str"))), "optional_none"
+                elif k.p_return_literal_source and self.chance(k.p_return_literal_source):
                     rt["default"], rdc = r.choice(["5", "0.5", "True", "'mnist'"]), "literal_source"
                     if "typ" in rt:
                         # a declared return type that fits the literal (a bool-typed return of 'mnist' is no interface)
